@@ -538,14 +538,14 @@ func runC08(c *Ctx) error {
 		}
 		return c.N(quick, thorough)
 	}
-	if err := c08Edits(c, c.Rng.Fork(), n(40, 500)); err != nil {
+	if err := c08Edits(c, c.Rng.Fork(), n(40, 700)); err != nil {
 		return err
 	}
-	if err := c08Pairs(c, c.Rng.Fork(), n(24, 300)); err != nil {
+	if err := c08Pairs(c, c.Rng.Fork(), n(24, 400)); err != nil {
 		return err
 	}
-	if err := c08SmallEdits(c, c.Rng.Fork(), n(500, 6000)); err != nil {
+	if err := c08SmallEdits(c, c.Rng.Fork(), n(400, 5000)); err != nil {
 		return err
 	}
-	return c08Acct(c, c.Rng.Fork(), n(400, 4000))
+	return c08Acct(c, c.Rng.Fork(), n(400, 3000))
 }
